@@ -47,7 +47,7 @@ var Core = []string{
 	"--c\n", "--c", "/*c*/", "/*c",
 	"/a/", "/a",
 	"#", "é", "\x00", "\xff", `\`,
-	`""`, "$1", "9", "\u0663", "\u212a",
+	`""`, "$1", "9", "\u0663", "\u212a", "\ufeff",
 }
 
 // Separators used when joining lexemes so that line/column arithmetic crosses them.
